@@ -177,7 +177,9 @@ def make_case(ctx, g):
                             err2 = e
                         err = w.add_attrs(h, [(a, rep)] + list(extras))
                         flags.add("same-value-then-more")
-                        if type(err) is not type(err2) or proto.canon_record(rec) != proto.canon_record(twin):
+                        # (compared by URI: the repeated pair may itself register its name's namespace, which shifts the numbering of
+                        #  the prefixes generated afterwards -- print forms are C03's subject, content is this property's)
+                        if type(err) is not type(err2) or proto.strict_record(rec) != proto.strict_record(twin):
                             fails.append(Failure("oracle", None, "pairs after a repeated value of %s are not handled as when given alone "
                                                  "(err=%r, alone=%r)" % (a, err, err2), {"ops": list(w.ops)}))
                     else:
